@@ -1,5 +1,6 @@
 import ZarrsModel.Model.Store
 import ZarrsModel.Model.FsStore
+import ZarrsModel.Model.AsyncRmw
 import ZarrsModel.Driver.Proto
 /- driver handlers for C08: stateful (one model store per case) -/
 namespace Zarrs.DriverC08
@@ -96,6 +97,17 @@ def handle (st : St) (l : Line) : Option (St × List String × Option String) :=
     let (m', r) := Spec.step st.m op
     let (m2, r2) := Mem.step st.m op
     let note := if m' == m2 && r == r2 then none else some ("Mem.step differs from Spec.step: " ++ showRes r2)
+    -- the concurrent model of `async_store_set_partial_values` (Model/AsyncRmw.lean) under an adversarial schedule — every
+    -- future reads before any writes, writes complete in reverse issue order — must give the specified store
+    -- (`Props/C08Async.lean: async_rmw_refines`; a run-time cross-check like the one above)
+    let note := match note, op with
+      | none, .setPartial kovs =>
+        let tasks := AsyncRmw.groupByKey kovs
+        let ids := List.range tasks.length
+        let evs := ids.map AsyncRmw.Ev.read ++ ids.reverse.map AsyncRmw.Ev.write
+        if (AsyncRmw.run tasks st.m evs).m == m' then none
+        else some "AsyncRmw.run (all reads, then writes in reverse order) differs from Spec.step"
+      | n, _ => n
     if st.kind == "fs" || st.kind == "fsdio" then
       -- second prediction: the directory-tree model
       let (f', fo) := Fs.fsStep st.fs op
